@@ -41,6 +41,8 @@ API (import as `from harness.lib import turnrig as TR`)
       {"mode":"stub","ret": <spec>}        scripted recording stub; `ret` is a JSON-able spec turned into the
                                            object the orchestrator expects (see `_make_ret`)
       {"mode":"stub","ret":..,"raise_nth":k,"exc":..}  stub that raises on its k-th call
+      {"mode":"shape","how": <one of EXPORT_SHAPES>}   (site store_hook_export only) export_state() returns a
+                                           structure the snapshot writer cannot encode (deep nesting, raising iteration, ..)
       {"mode":"mangle","how":"bad_score"|"none_entry"|"no_ids"}  run the real callable, then damage its output
                                            (list-of-dict returning sites such as quality_fuse / quality_mmr)
     Exception names may carry a message-shape variant `"<Type>:<variant>"` (see `EXC_VARIANTS`: noargs, empty, ws,
@@ -314,6 +316,53 @@ def _validated_cfg(spec: dict, snap_dir: Path) -> Dict[str, Any]:
         return deep_merge(base, over)
 
 
+EXPORT_SHAPES = ("deep_list", "deep_dict", "very_deep", "exploding_mapping", "exploding_iter", "set_value", "bytes_value",
+                 "tuple_keys", "circular", "nan", "object", "huge_int_key")
+
+
+def export_shape(how: str, good: dict) -> Any:
+    """what a store's `export_state()` hands back when it "succeeds" with something the snapshot writer cannot (or
+    can only just) encode: nesting beyond the interpreter's recursion limit, containers whose iteration raises,
+    non-JSON types, cycles"""
+    if how in ("deep_list", "deep_dict", "very_deep"):
+        n = 200000 if how == "very_deep" else 5000
+        x: Any = 0
+        for _ in range(n):
+            x = {"k": x} if how == "deep_dict" else [x]
+        return {"w": good["w"], "nested": x}
+    if how == "exploding_mapping":
+        class Boom(dict):
+            def items(self):
+                raise RuntimeError("mapping changed size during iteration")
+
+            def __iter__(self):
+                raise RuntimeError("mapping changed size during iteration")
+        return {"w": good["w"], "m": Boom(a=1)}
+    if how == "exploding_iter":
+        class BoomL(list):
+            def __iter__(self):
+                raise OSError()
+
+            def __len__(self):
+                return 3
+        return {"w": good["w"], "l": BoomL([1, 2, 3])}
+    if how == "set_value":
+        return {"w": {1, 2}}
+    if how == "bytes_value":
+        return {"w": b"\xff\x00"}
+    if how == "tuple_keys":
+        return {("node", "n:x"): 1.0}
+    if how == "circular":
+        d: Dict[str, Any] = {"w": good["w"]}
+        d["self"] = d
+        return d
+    if how == "nan":
+        return {"w": [float("nan"), float("inf")]}
+    if how == "object":
+        return {"w": object()}
+    return {10 ** 400: 1}
+
+
 def _make_store(kind: str, spec: dict):
     if kind == "none":
         return None
@@ -368,7 +417,11 @@ def _make_store(kind: str, spec: dict):
             if "export" in self.rig_fault:
                 self.rig_hits.append("store_hook_export")
                 raise make_exc(self.rig_fault["export"])
-            return {"w": sorted([list(k), v] for k, v in self.w.items())}
+            good = {"w": sorted([list(k), v] for k, v in self.w.items())}
+            if "shape" in self.rig_fault:
+                self.rig_hits.append("store_hook_export")
+                return export_shape(self.rig_fault["shape"], good)
+            return good
 
         def import_state(self, st):
             self.rig_hook_calls.append("import_state")
@@ -677,6 +730,8 @@ def _patched(run: Run, behaviours: Dict[str, dict], world: World):
                     key = site.split("_")[-1]
                     if mode == "raise":
                         st.rig_fault[key] = beh.get("exc", "RigFault")
+                    elif mode == "shape":          # export_state() returns a malformed / hostile structure
+                        st.rig_fault["shape"] = beh.get("how", "deep_list")
                     else:
                         st.rig_fault.pop(key, None)
                 continue
